@@ -47,6 +47,7 @@ def seq_code(name, n):
     ar = ", ".join("r.%d.content.to_string()" % i for i in idx)
     im = ", ".join("im.%d.content.to_string()" % i for i in idx)
     ga = ", ".join("serde_json::json!([skp(&|| raw(&a.%d.skipped)), a.%d.matched.content.to_string()])" % (i, i) for i in idx)
+    a2 = ", ".join("&a2.%d" % i for i in idx)
     return """
 pub fn custom_%(name)s(job: &hcommon::Job) -> serde_json::Value {
     use pest_typed::{ParsableTypedNode, RuleStruct, Spanned};
@@ -62,12 +63,16 @@ pub fn custom_%(name)s(job: &hcommon::Job) -> serde_json::Value {
             let r = c.as_ref();
             let a = c.get_all();
             let im = c.clone().into_matched();
-            serde_json::json!({"get_matched": [%(gm)s], "as_ref": [%(ar)s], "into_matched": [%(im)s], "get_all": [%(ga)s]})
+            let a2 = c.clone().into_all();
+            let a = (%(a2)s);
+            let ia: serde_json::Value = serde_json::json!([%(ga)s]);
+            let a = c.get_all();
+            serde_json::json!({"get_matched": [%(gm)s], "as_ref": [%(ar)s], "into_matched": [%(im)s], "get_all": [%(ga)s], "into_all": ia})
         }
         Err(_) => serde_json::json!({"fail": true}),
     }
 }
-""" % dict(name=name, gm=gm, ar=ar, im=im, ga=ga)
+""" % dict(name=name, gm=gm, ar=ar, im=im, ga=ga, a2=a2)
 
 
 def rep_code(name, path):
@@ -110,6 +115,19 @@ pub fn custom_%(name)s(job: &hcommon::Job) -> serde_json::Value {
 """ % dict(name=name, expr=expr)
 
 
+def span_leaf_code(name):
+    """an atomic rule whose whole body is one skip-until node: the rule's span is the text that node consumed"""
+    return """
+pub fn custom_%(name)s(job: &hcommon::Job) -> serde_json::Value {
+    use pest_typed::{ParsableTypedNode, RuleStruct, Spanned};
+    match t::rules::r#%(name)s::try_parse_partial(pest_typed::Span::new(job.full.as_str(), job.lo, job.hi).unwrap()) {
+        Ok((_, node)) => serde_json::json!({"leaf": node.span().as_str().to_string()}),
+        Err(_) => serde_json::json!({"fail": true}),
+    }
+}
+""" % dict(name=name)
+
+
 def fam_arity(tier):
     out = []
     # choices: one grammar per group of arities (>= 13 uses the on-demand choices! expansion)
@@ -149,7 +167,9 @@ def fam_arity(tier):
     lines = [WSN, "rp0 = { ('a'..'c')* }", "rp1 = ${ ('a'..'c')* }", "rp2 = { \"x\" ~ ('a'..'c')* }",
              "lf0 = { 'a'..'\\u{ff}' }", "lf1 = { ANY }", "lf2 = { ^\"aB\" }", "lf3 = { NEWLINE }", "lf4 = { LETTER }", "lf5 = { PUSH(ANY) ~ PEEK }",
              "lf6 = { PUSH(ANY) ~ \"-\" ~ POP }", "lf7 = { ASCII_DIGIT }", "lf8 = { PUSH(\"a\") ~ PUSH(ANY) ~ PEEK_ALL }", "lf9 = { PUSH(\"a\") ~ PUSH(ANY) ~ \"-\" ~ POP_ALL }",
-             "lf10 = { UPPERCASE_LETTER }", "lf11 = { '\\u{80}'..'\\u{10ffff}' }"]
+             "lf10 = { UPPERCASE_LETTER }", "lf11 = { '\\u{80}'..'\\u{10ffff}' }",
+             # skip-until nodes (pest's optimizer builds them in atomic rules): terminators that contain, prefix or repeat one another
+             'lf12 = @{ (!("Ba" | "a") ~ ANY)* }', 'lf13 = @{ (!("\\r\\n" | "\\n") ~ ANY)* }', 'lf14 = @{ (!("aB" | "a" | "-a" | "a") ~ ANY)* }']
     custom = {"rp0": "custom_rp0", "rp1": "custom_rp1", "rp2": "custom_rp2"}
     extra = rep_code("rp0", "") + rep_code("rp1", "") + rep_code("rp2", ".get_matched().1")
     leaf_expr = {"lf0": "c.content.to_string()", "lf1": "c.content.to_string()", "lf2": "c.content.to_string()", "lf3": 'format!("{:?}", c.content)',
@@ -161,8 +181,12 @@ def fam_arity(tier):
         custom[k] = "custom_" + k
         extra += leaf_code(k, e)
         exp[k] = ("leaf", k)
+    for k in ("lf12", "lf13", "lf14"):
+        custom[k] = "custom_" + k
+        extra += span_leaf_code(k)
+        exp[k] = ("leaf", k)
     out.append(dict(id="arl0", text="\n".join(lines), alphabet=[97, 66, 233, 20013, 128512, 10, 13, 45, 120, 32, 49] if tier != "quick" else [97, 66, 233, 128512, 10, 13, 45, 32],
                     maxlen=2 if tier == "quick" else 3,
-                    inputs=[cps(s) for s in ["xa b  c", "xabc", "x a", "a b c", "ab", "Ab", "AB", "aB", "\r\n", "é-é", "ÿ", "中中", "a中-中a", "a1-1a", "1", "É", "abcabc", "a  b"]],
+                    inputs=[cps(s) for s in ["xa b  c", "xabc", "x a", "a b c", "ab", "Ab", "AB", "aB", "\r\n", "é-é", "ÿ", "中中", "a中-中a", "a1-1a", "1", "É", "abcabc", "a  b", "xBa", "BBa-", "x\r\n", "\rx\r\n", "é-a", "BaB", "-aB", "éBa", "\r\r\n"]],
                     custom=custom, extra=extra, expect=exp, ctxs=[[cps(a), cps(b)] for a, b in [["", ""], ["", "\n"], ["", "b"], ["é", "é"], ["a", "a"]]]))
     return out
